@@ -69,6 +69,10 @@
   | statement_compound.py:632-650 `Class.depended_types` (and every `sorted()` / `.sort()` / `min()` / `max()`) | ORDER of a collection of names | the shipped code keeps declaration (dict insertion) order: equivariant; ordering by spelling (`sorted(sub_types.keys())`, a seeded mutation) is not — such calls are order-by-spelling sites of the generated table (only numeric `min(precedences)`, `max(0, …)` exist) |
   | function/_method_body.j2:1-5 `return_type.startswith('Iterator<' / 'ItemsView<')` | the generic name WITH its `<` (since 3ee1aa1; before: bare prefix, a class `Iteratorx` became an iterator method) | yes: a class name contains no `<` |
   | func_call/list_sort.j2 `(entry_name + '->') in entry_value`, `('(' + entry_name) in …`, `replace(entry_name, …)` | SUBSTRING tests / replacement with the lambda parameter name | NO: `cur` rewrites `curx` — known finding `list-sort-substring:output` (proposed/C08-list-sort-substring-replace.md) |
+  | cpp_view_helper.py:95-118 `VarType.annotated`: `startswith('const ')`, `origin in immutable_types` with `origin` = the leading run of `[\w\d:_]` | qualifier WITH its blank; WHOLE type name in a list | yes: `view_annotated_whole_name` (the variant without the blank: `view_annotated_const_prefix_counterexample`) |
+  | cpp_view_helper.py:80-85 `Param.var_type_origin`: `startswith('const ')`, `endswith('*' / '&')`, group 2 of `Param.VarType`, `split('<')[0]` | qualifier with blank, last character, run of type characters | yes: `view_var_type_origin` (on the generated pattern itself: C18 `var_type_origin_plain/_const`) |
+  | cpp_view_helper.py:17-22 `SuperInitializer.parse` `([\w\d]+)::__init__\(([^;]*)\);$` | identifier before `::__init__(`, text up to `);` | yes: `view_super_initializer` |
+  | py2cpp.py `….prop.tokens in FuncCallSpec.dict_iter_methods / list_methods / str_methods`, `== CVars.Verbs.*.value`, `in ['name', 'value']` (25 member-name comparisons; generated table C08Names) | equality / membership of a MEMBER name with words a user class may use too | yes because each stands under a guard on the receiver's TYPE: `name_sites_guarded` (a dropped guard — seeded mutation on `on_for` — falsifies it and is exhibited by the member-spelling programs of the search) |
   | py2cpp.py:1757 ListSortKeyPattern, :1793,1858,1874 BlockParser calls | lambda text / bracket blocks | search only (real-code equivariance); BlockParser is property C18 |
 -/
 import Tranp.Lemmas.Scope
